@@ -293,6 +293,41 @@ func (fe *FactEngine) ensuresT(fn *ssa.Function, truth bool) []relFact {
 			}
 		}
 	}
+	// error validators that end in `return g(x)`: a nil result of g is the only way this return succeeds,
+	// so g's ensures (mapped to the actual arguments) hold on it
+	if ei := errIndex(fn); ei >= 0 {
+		for _, r := range rets {
+			vals, zero := resultVals(r, ei)
+			if zero || len(vals) != 1 {
+				continue
+			}
+			var call *ssa.Call
+			switch x := vals[0].(type) {
+			case *ssa.Call:
+				if isErrorType(x.Type()) {
+					call = x
+				}
+			case *ssa.Extract:
+				if c, ok := x.Tuple.(*ssa.Call); ok && isErrorType(x.Type()) {
+					call = c
+				}
+			}
+			if call == nil {
+				continue
+			}
+			cal := call.Call.StaticCallee()
+			if cal == nil || cal == fn {
+				continue
+			}
+			for _, rf := range fe.ensures(cal) {
+				if rf.param < len(call.Call.Args) {
+					f := pfact{kind: rf.kind, path: pathOf(call.Call.Args[rf.param]) + rf.rel, min: rf.min}
+					implied[r] = append(implied[r], f)
+					cands[f] = true
+				}
+			}
+		}
+	}
 	for f := range cands {
 		pi, rel, ok := splitParam(fn, f.path)
 		if !ok {
